@@ -116,6 +116,15 @@ def run(rep, tier, seed):
             else:
                 got = fn(xs, n=n)
             got = numpy.asarray(got, dtype=float)
+            # the NumPy-style out= argument: a separate buffer, and the argument itself (computed in place)
+            pre = {"polygamma": lambda: (par["m"],), "hyperu": lambda: (F(par["a"]), F(par["b"])), "clip": lambda: (-1.0, 1.5)}.get(f, lambda: ())()
+            buf = numpy.full_like(xs, 7.25)
+            r1 = fn(*pre, xs.copy(), out=buf, n=n)
+            xa = xs.copy()
+            r2 = fn(*pre, xa, out=xa, n=n)
+            for how, r_, tgt in (("a separate out= buffer", r1, buf), ("out= the argument itself", r2, xa)):
+                if r_ is not tgt or not numpy.array_equal(numpy.asarray(r_, dtype=float), got, equal_nan=True):
+                    rep.violation("%s%s with %s differs from the plain call" % (f, pname, how), {"n": n, "got": numpy.asarray(r_, dtype=float).tolist(), "plain": got.tolist()})
         except Exception as ex:
             rep.violation("%s%s raises %s" % (f, pname, type(ex).__name__), {"n": n, "what": repr(ex)[-300:]})
             continue
